@@ -169,8 +169,7 @@ private theorem okWf_applyBinNumber (x : α) (op : BinOp) (b : Prim α) : OkWf (
   unfold applyBinNumber; cases b <;> first | exact okWf_floatArith _ _ _ | exact okWf_error _
 
 /-- closure: whatever the operands, a successful `apply_binary_op` returns a value inside the `i64` /
-`u64` range of its kind (no silent wrap of the RESULT; operands above `i64::MAX` are another matter,
-see `u64_operand_wrap_counterexample`). -/
+`u64` range of its kind (and the result is the exact one: `exact_integer_results`). -/
 theorem applyBinary_wf (a b : Prim α) (op : BinOp) (v : Prim α) (h : applyBinary a op b = .ok v) : v.wf = true := by
   suffices hs : OkWf (applyBinary a op b) from hs v h
   cases a with
@@ -189,67 +188,66 @@ theorem applyBinary_wf (a b : Prim α) (op : BinOp) (v : Prim α) (h : applyBina
     cases b <;> cases op <;> first | exact okWf_ofI64 _ | exact okWf_ofU64 _ | exact okWf_floatArith _ _ _ | exact okWf_checkedDiv _ _ | exact okWf_error _
   | other k => cases k <;> exact okWf_error _
 
-/-- … but a `PositiveInteger` OPERAND at or above 2^63 is reinterpreted (`as i64`) before the checked
-operation, so the returned integer can be mathematically wrong: 2^63 + 1 = -(2^63) + 1 (the harness
-reports these as `silent-integer-wrap`). -/
-theorem u64_operand_wrap_counterexample :
-    applyBinary (.pint 9223372036854775808 : Prim α) .add (.integer 1) = .ok (.integer (-9223372036854775807)) := by
-  simp [applyBinary, applyBinPint, u64AsI64, ofI64, checkedI64, inI64, i64Min, i64Max]
-
-/-! ### the proposed repair of the `as i64` wrap: integer results are EXACT -/
+/-! ### integer results are EXACT (the `as i64` wrap is gone since 9844b94) -/
 
 def intOp (op : BinOp) (x y : Int) : Option Int :=
   match op with | .add => some (x + y) | .sub => some (x - y) | .mul => some (x * y) | _ => none
 
-/-- with `fixes/C18-exact-mixed-integer-arithmetic.diff` every `Integer` / `PositiveInteger` result of
-`+ - *` on integer operands is the mathematical result (so a value that does not fit is the Overflow
-error, never a wrapped number).  For the CURRENT code this fails: `u64_operand_wrap_counterexample`. -/
+/-- every `Integer` / `PositiveInteger` result of `+ - *` on integer-valued operands (`Integer`,
+`PositiveInteger`, `Boolean` on the right) is the mathematical result; a value that does not fit is the
+`Overflow` error, never a wrapped number.  No hypothesis on the size of the operands. -/
 theorem exact_integer_results (a b r : Prim α) (op : BinOp) (x y e : Int)
     (ha : a = .integer x ∨ (∃ u : Nat, a = .pint u ∧ x = u)) (hb : b.intVal = some y) (he : intOp op x y = some e)
-    (h : applyBinaryX a op b = .ok r) : r.intVal = some e := by
+    (h : applyBinary a op b = .ok r) : r.intVal = some e := by
   rcases ha with rfl | ⟨u, rfl, rfl⟩
   · cases b <;> cases op <;>
-      simp_all [applyBinaryX, applyBinIntegerX, applyBinInteger, Prim.intVal, intOp, ofI64, checkedI64, boolI] <;>
+      simp_all [applyBinary, applyBinInteger, Prim.intVal, intOp, ofI64, checkedI64, boolI] <;>
       (split at h <;> simp_all) <;> (subst h; simp [Prim.intVal]) <;> omega
   · cases b <;> cases op <;>
-      simp_all [applyBinaryX, applyBinPintX, applyBinPint, Prim.intVal, intOp, ofI64, ofU64, checkedI64, checkedU64, boolI] <;>
+      simp_all [applyBinary, applyBinPint, Prim.intVal, intOp, ofI64, ofU64, checkedI64, checkedU64, boolI] <;>
       (split at h <;> simp_all) <;> (try (subst h; simp [Prim.intVal])) <;> (try omega)
     all_goals (rename_i hq; obtain ⟨h1, h2⟩ := hq; rw [inU64_iff] at h1; omega)
 
-theorem no_panic_applyBinaryX (a b : Prim α) (op : BinOp) : applyBinaryX a op b ≠ .error .panic := by
-  cases a with
-  | integer i =>
-    simp only [applyBinaryX, applyBinIntegerX]
-    cases b <;> cases op <;> simp [applyBinInteger, floatArith_ne_panic, ofI64_ne_panic, checkedDiv_ne_panic]
-  | pint u =>
-    simp only [applyBinaryX, applyBinPintX]
-    cases b <;> cases op <;> simp [applyBinPint, floatArith_ne_panic, ofI64_ne_panic, ofU64_ne_panic, checkedDiv_ne_panic]
-  | _ => simpa [applyBinaryX] using no_panic_applyBinary _ b op
+/-- … and conversely the operation only fails with `Overflow` when the exact result is outside both ranges
+that the result kind could hold: a representable `i64` result of a mixed operation is always returned -/
+theorem mixed_integer_complete (x : Int) (u : Nat) (op : BinOp) (e : Int)
+    (he : intOp op x u = some e) (hfit : inI64 e = true) :
+    applyBinary (.integer x : Prim α) op (.pint u) = .ok (.integer e) := by
+  cases op <;> simp_all [applyBinary, applyBinInteger, intOp, ofI64, checkedI64]
 
-/-- the repair changes nothing as long as every `PositiveInteger` operand is below 2^63 -/
+/-! #### regression: the code before the repair -/
+
+/-- BEFORE 9844b94 a `PositiveInteger` OPERAND at or above 2^63 was reinterpreted (`as i64`) before the
+checked operation, so the returned integer could be mathematically wrong: 2^63 + 1 = -(2^63) + 1 (the
+harness reports these as `silent-integer-wrap`; the inputs stay in the regression stream). -/
+theorem u64_operand_wrap_counterexample :
+    applyBinaryWrap (.pint 9223372036854775808 : Prim α) .add (.integer 1) = .ok (.integer (-9223372036854775807)) := by
+  simp [applyBinaryWrap, applyBinPintWrap, u64AsI64, ofI64, checkedI64, inI64, i64Min, i64Max]
+
+/-- the repair changed nothing as long as every `PositiveInteger` operand is below 2^63 -/
 theorem repair_agrees_binary (a b : Prim α) (op : BinOp)
     (ha : ∀ u, a = .pint u → u < 9223372036854775808) (hb : ∀ u, b = .pint u → u < 9223372036854775808) :
-    applyBinaryX a op b = applyBinary a op b := by
+    applyBinary a op b = applyBinaryWrap a op b := by
   cases a with
   | integer i =>
     cases b with
     | pint n =>
       have hn := hb n rfl
-      cases op <;> simp [applyBinaryX, applyBinIntegerX, applyBinary, applyBinInteger, u64AsI64, hn]
-    | _ => cases op <;> simp [applyBinaryX, applyBinIntegerX, applyBinary]
+      cases op <;> simp [applyBinaryWrap, applyBinIntegerWrap, applyBinary, applyBinInteger, u64AsI64, hn]
+    | _ => cases op <;> simp [applyBinaryWrap, applyBinIntegerWrap, applyBinary, applyBinInteger]
   | pint u =>
     have hu := ha u rfl
     cases b with
     | pint n =>
       have hn := hb n rfl
-      cases op <;> simp [applyBinaryX, applyBinPintX, applyBinary, applyBinPint, u64AsI64, hn, hu]
-    | _ => cases op <;> simp [applyBinaryX, applyBinPintX, applyBinary, applyBinPint, u64AsI64, hu]
-  | _ => simp [applyBinaryX]
+      cases op <;> simp [applyBinaryWrap, applyBinPintWrap, applyBinary, applyBinPint, u64AsI64, hn, hu]
+    | _ => cases op <;> simp [applyBinaryWrap, applyBinPintWrap, applyBinary, applyBinPint, u64AsI64, hu]
+  | _ => simp [applyBinaryWrap]
 
-example : applyBinaryX (.pint 9223372036854775808 : Prim α) .add (.integer 1) = .error .overflow := by
-  simp [applyBinaryX, applyBinPintX, ofI64, checkedI64, inI64, i64Min, i64Max]
-example : applyBinaryX (.integer (-1) : Prim α) .add (.pint 9223372036854775808) = .ok (.integer 9223372036854775807) := by
-  simp [applyBinaryX, applyBinIntegerX, ofI64, checkedI64, inI64, i64Min, i64Max]
+example : applyBinary (.pint 9223372036854775808 : Prim α) .add (.integer 1) = .error .overflow := by
+  simp [applyBinary, applyBinPint, ofI64, checkedI64, inI64, i64Min, i64Max]
+example : applyBinary (.integer (-1) : Prim α) .add (.pint 9223372036854775808) = .ok (.integer 9223372036854775807) := by
+  simp [applyBinary, applyBinInteger, ofI64, checkedI64, inI64, i64Min, i64Max]
 
 /-- `as_primitive` on operator expressions never panics -/
 theorem eval_binary_never_panics (e : PExp α) : e.eval ≠ .error (.binOpError .panic) := by
